@@ -294,6 +294,46 @@ def trilinear_config(h, mesh, elems, kind, free=None):
             h.zero('trilinear: dense tensor contraction == t(u_h, v_h, w_h)', val - rhs, scale=scale)
 
 
+def param_forms_config(h, mesh, elem, kind):
+    """Equivalent ways of handing parameters and forms to the assembler give the same triplets: a coefficient vector, its
+    interpolation (DiscreteField), the raw array of its values at the quadrature points; Form.partial; the decorator-with-options
+    spelling; a scalar."""
+    import skfem as S
+    ctor = ELEMENTS()[elem][0]
+    dt = object if h.sym_mode else np.float64
+    with warnings.catch_warnings():
+        warnings.simplefilter('ignore')
+        m = make_mesh(h, mesh)
+        b = make_basis(h, m, ctor(), kind)
+        N = int(b.N)
+        k = h.sym('k', (N,), nominal=(np.arange(N) * 2 % 3) + 0.5)
+        c = h.sym('c', (), nominal=1.375)
+        h.sample(dict(mesh=mesh, element=elem, basis=kind, N=N))
+        fn = lambda u, v, w: w.k * u * v.grad[0] + w.c * u * v
+        ref = S.BilinearForm(fn, dtype=dt)._assemble(b, k=k, c=c)
+        kf = b.interpolate(k)
+
+        def same(tag, got):
+            h.concrete('%s: same triplet indices' % tag, np.array_equal(got[0], ref[0]) and tuple(got[2]) == tuple(ref[2]))
+            h.equal('%s: same values' % tag, np.asarray(got[1]), np.asarray(ref[1]))
+        same('parameter as interpolated field', S.BilinearForm(fn, dtype=dt)._assemble(b, k=kf, c=c))
+        same('parameter as raw array of values at the quadrature points', S.BilinearForm(fn, dtype=dt)._assemble(b, k=np.asarray(kf.value), c=c))
+
+        def fn2(u, v, w, alpha=0, beta=1):
+            return w.k * u * v.grad[0] * beta + alpha * u * v
+        same('Form.partial binds keyword arguments of the integrand', S.BilinearForm(fn2, dtype=dt).partial(alpha=c)._assemble(b, k=k))
+        deco = S.BilinearForm(dtype=dt)(fn)          # the decorator-with-options spelling
+        same('decorator with options', deco._assemble(b, k=k, c=c))
+        # linear forms and functionals accept the same spellings
+        lf = lambda v, w: w.k * v.grad[0] + w.c * v
+        r1 = S.LinearForm(lf, dtype=dt)._assemble(b, k=k, c=c)
+        r2 = S.LinearForm(lf, dtype=dt)._assemble(b, k=np.asarray(kf.value), c=c)
+        h.equal('linear form: raw array parameter == coefficient vector', np.asarray(r2[1]), np.asarray(r1[1]))
+        j1 = S.Functional(lambda w: w.k * w.k.grad[0] * w.c if hasattr(w.k, 'grad') and w.k.grad is not None else w.k, dtype=dt).assemble(b, k=k, c=c)
+        j2 = S.Functional(lambda w: w.k * w.k.grad[0] * w.c if hasattr(w.k, 'grad') and w.k.grad is not None else w.k, dtype=dt).assemble(b, k=kf, c=c)
+        h.zero('functional: interpolated field parameter == coefficient vector', j1 - j2)
+
+
 def floatpath_config(h, mesh, elem, form, kind, scale):
     """Mode F: the real float64 assemble() (COOData -> scipy CSR, duplicate summation, eliminate_zeros) against the exact
     assembly on the same numeric geometry; for every row i, |((A_float - A_exact) u)_i| <= 1e-9 max|A_exact| for ALL u in [-1,1]^N."""
@@ -475,6 +515,8 @@ def build_configs(tier, seed):
         add('hex1', 'Hex0', 'mass', 'cell', free=[0, 1])
         add('hex1', 'HexRT1', 'hdiv', 'cell', free='none')
         add('wedge1', 'Wedge1', 'wx', 'cell', free=[0])
+    for (mesh, elem, kind) in [('tri2', 'TriP1', 'cell'), ('tri2', 'TriP2', 'facet'), ('line3perm', 'LineP2', 'cell')]:
+        cfgs.append(dict(name='param-forms/%s/%s/%s' % (mesh, elem, kind), fn=param_forms_config, kw=dict(mesh=mesh, elem=elem, kind=kind), opts=dict(timeout=600)))
     # --- trilinear forms: three different local sizes ---------------------------------------------------------------------------
     for (mesh, elems, kind) in [('tri2', ('TriP1', 'TriP2', 'TriP0'), 'cell'), ('line3perm', ('LineP2', 'LineP1', 'LineP0'), 'cell'),
                                 ('tri2', ('TriP0', 'TriP1', 'TriCR'), 'facet')]:
